@@ -19,8 +19,6 @@ import (
 
 const huge = 1e9
 
-var errIgnored = errors.New("the harness-registered generator yields no controller")
-
 func sumSleeps(s []time.Duration) int64 {
 	n := int64(0)
 	for _, d := range s {
@@ -94,13 +92,7 @@ func flowKit(m *rulesh.Mod[flow.Rule]) *kit[flow.Rule] {
 		return segments(r, func() ev { return ev{Dt: uint64(r.PickI(0, 0, 1, 10, 100, 100, 300, 600, 1100, 2500))} })
 	}
 	kt.drain = func() {}
-	// a user-registered generator (strategy pair 5/4): runs the harness action, yields no controller
-	kt.genRule = func(res string) *flow.Rule {
-		return &flow.Rule{Resource: res, TokenCalculateStrategy: 5, ControlBehavior: 4, Threshold: huge}
-	}
-	if err := flow.VerifSetGenerator(5, 4, func(*flow.Rule) error { runGenAct(); return errIgnored }); err != nil {
-		panic(err)
-	}
+	kt.genRule = m.GenRule
 	kt.newRun = func(res string, u *flow.Rule) func(e ev) dec {
 		return func(e ev) dec {
 			clk.AddMs(e.Dt)
@@ -227,12 +219,7 @@ func brkKit(m *rulesh.Mod[cb.Rule]) *kit[cb.Rule] {
 		})
 	}
 	kt.drain = func() {}
-	kt.genRule = func(res string) *cb.Rule {
-		return &cb.Rule{Resource: res, Strategy: 9, RetryTimeoutMs: 1000, MinRequestAmount: 1, StatIntervalMs: 1000, Threshold: 1}
-	}
-	if err := cb.SetCircuitBreakerGenerator(9, func(*cb.Rule, interface{}) (cb.CircuitBreaker, error) { runGenAct(); return nil, errIgnored }); err != nil {
-		panic(err)
-	}
+	kt.genRule = m.GenRule
 	kt.newRun = func(res string, u *cb.Rule) func(e ev) dec {
 		return func(e ev) dec {
 			clk.AddMs(e.Dt)
@@ -376,12 +363,7 @@ func hotKit(m *rulesh.Mod[hotspot.Rule]) *kit[hotspot.Rule] {
 		}
 		held = nil
 	}
-	kt.genRule = func(res string) *hotspot.Rule {
-		return &hotspot.Rule{Resource: res, MetricType: hotspot.QPS, ControlBehavior: 10, Threshold: huge, DurationInSec: 1}
-	}
-	if err := hotspot.SetTrafficShapingGenerator(10, func(*hotspot.Rule, *hotspot.ParamsMetric) hotspot.TrafficShapingController { runGenAct(); return nil }); err != nil {
-		panic(err)
-	}
+	kt.genRule = m.GenRule
 	kt.newRun = func(res string, u *hotspot.Rule) func(e ev) dec {
 		return func(e ev) dec {
 			clk.AddMs(e.Dt)
